@@ -108,6 +108,11 @@ func GenProgram(r *core.Rand, o SemOpts) *Program {
 	dirs := []string{"idl"}
 	if o.Dirs {
 		dirs = append(dirs, "idl/"+g.name("d"), "idl/shared", "idl/shared/"+g.name("sub"))
+		if r.Chance(1, 3) {
+			// sibling directories one of whose names is a string prefix of the
+			// other, and nothing directly in their parent
+			dirs = []string{"idl/shared", "idl/shared_models", "idl/shared/" + g.name("sub"), "idl/shared_models/v1", "idl/shared_models/v10"}
+		}
 	}
 	lastClash := ""
 	for i := 0; i < nf; i++ {
@@ -169,6 +174,26 @@ func GenProgram(r *core.Rand, o SemOpts) *Program {
 		}
 	}
 	_ = siblings
+	// two different files with one base name in different directories, reached
+	// through different includers on the same level of the include graph
+	if o.IncludeBias && nf >= 5 && !o.ChainMode && r.Chance(1, 3) {
+		f := g.p.Files
+		d3, d4 := path.Dir(f[3].Path), path.Dir(f[4].Path)
+		np := d4 + "/" + f[3].ModuleName() + ".thrift"
+		free := d3 != d4
+		for _, x := range f {
+			if x.Path == np {
+				free = false
+			}
+		}
+		if free {
+			f[4].Path = np
+			g.include(f[0], f[1])
+			g.include(f[0], f[2])
+			g.include(f[1], f[3])
+			g.include(f[2], f[4])
+		}
+	}
 	// include graph: every file but the first has an includer with a smaller
 	// index; extra forward edges at random; back edges only when cycles are allowed
 	if o.ChainMode {
